@@ -224,7 +224,9 @@ pub fn run(ctx: &mut Ctx) {
     {
         let rt = tokio::runtime::Builder::new_multi_thread().worker_threads(2).enable_all().build().unwrap();
         let authn2 = authn.clone();
+        let tok_valid_rp = tok_valid.clone();
         rt.block_on(async move {
+            let tok_valid = tok_valid_rp;
             use tokio::io::{AsyncReadExt, AsyncWriteExt};
             let l = tokio::net::TcpListener::bind("127.0.0.1:0").await.unwrap();
             let origin = l.local_addr().unwrap();
@@ -244,6 +246,39 @@ pub fn run(ctx: &mut Ctx) {
             let _ = tokio::time::timeout(std::time::Duration::from_secs(5), h1_session(&core, "localhost", None, raw, 300)).await;
         });
         check(ctx, "reverse proxy h1 with Authorization / Cookie / Proxy-Authorization");
+        // reverse-proxy requests on a connection that authenticated by SNI, with and without a Host header, with an absolute target
+        for sni_creds in [Some("CANARYSNI".to_string()), Some("CANARYBADSNI".to_string()), None] {
+            for shape in 0..3 {
+                let authn2 = authn.clone();
+                let sc = sni_creds.clone();
+                let tok = tok_valid.clone();
+                rt.block_on(async move {
+                    use tokio::io::{AsyncReadExt, AsyncWriteExt};
+                    let l = tokio::net::TcpListener::bind("127.0.0.1:0").await.unwrap();
+                    let origin = l.local_addr().unwrap();
+                    tokio::spawn(async move {
+                        if let Ok((mut s, _)) = l.accept().await {
+                            let mut buf = vec![0u8; 4096];
+                            let _ = s.read(&mut buf).await;
+                            let _ = s.write_all(b"HTTP/1.1 200 OK\r\nContent-Length: 2\r\n\r\nok").await;
+                        }
+                    });
+                    let core = make_core(authn2, Some(origin));
+                    let sni = match &sc {
+                        Some(c) => format!("{}.localhost", c),
+                        None => "localhost".to_string(),
+                    };
+                    let head = match shape {
+                        0 => "GET /rp/chat HTTP/1.1\r\nUpgrade: websocket\r\n".to_string(),
+                        1 => "GET /rp/chat HTTP/1.1\r\nHost: localhost\r\nUpgrade: websocket\r\n".to_string(),
+                        _ => "GET https://localhost/rp/chat?k=v HTTP/1.1\r\nUpgrade: websocket\r\n".to_string(),
+                    };
+                    let raw = format!("{}Cookie: session=CANARYCOOKIE\r\nProxy-Authorization: Basic {}\r\n\r\n", head, tok).into_bytes();
+                    let _ = tokio::time::timeout(std::time::Duration::from_secs(5), h1_session(&core, &sni, sc.clone(), raw, 300)).await;
+                });
+                check(ctx, &format!("reverse proxy h1 on a connection with SNI credentials {:?}, request shape {} (0 no Host, 1 Host, 2 absolute target)", sni_creds, shape));
+            }
+        }
     }
     // ---- the real forwarders (nothing scripted): SOCKS5 upstream with and without an authenticator in front (without
     // one the client's Proxy-Authorization travels to the upstream dialogue), plain and extended authentication, an
